@@ -130,6 +130,13 @@ CLAIMED = {
             "PARTIAL: the model covers the FS calls of the commands' own code paths (extracted by the fs_steps translator for the migrations, hand-modelled for up/init); explain/discover/diag/inspect are covered by "
             "the implementation monitor (audit trace + hashes), not by separate models; OS durability is out of scope; interactive answers are not exercised.",
             "DESIGN.md §5 C20, notes/C20_notes.md"),
+    'C07': ("Lean 4 invariant proof over the process-wide cache state machine for an arbitrary world + operation-sequence runs compared with a forked pristine process",
+            "Proof: inv_init, inv_step, inv_run (cached engine = last .rules load; expression and regex caches hold exactly what parsing / compiling the key gives), step_eq_spec, history_independent "
+            "(after ANY history the next classify / evaluate answers what a fresh process that performed only the last load answers), classify_keeps_rules; stale_engine_unrepaired is the D7 counterexample.",
+            "Trusted: Lean kernel; History.step is a hand model of _cached_engine / _expression_cache / _regex_cache (the theorems hold for every parser, compiler, engine, evaluator); tie: random operation "
+            "sequences (3–12 ops over four rule files, collision-prone expression pairs) in one process vs os.fork from a pristine interpreter after every classify/evaluate, plus the symbolic-world "
+            "correspondence of which load an answer comes from; frame (rules / rows / transaction unchanged) by deep copies on the implementation. Defect D7 repaired by a fix: commit.",
+            "DESIGN.md §5 C07"),
 }
 
 PENDING_REASON = "not claimed yet: model/theorems for this property are still being built (see DESIGN.md §7 build order); no check is registered until it is sound"
